@@ -17,28 +17,40 @@ ChkS(tr, ll, what, diag) ==
   ELSE Say([v |-> "MISMATCH", tid |-> tr.tid, l |-> ll, what |-> what, diag |-> diag]) /\ FALSE
 
 \* ---- the content a reader must present for configuration c
-ExpData(c, s) == [q \in 1..(c.nt * c.nz * c.ny * c.nx) |->
-  LET i == ((q - 1) % c.nx) + 1
-      j == (((q - 1) \div c.nx) % c.ny) + 1
-      k == (((q - 1) \div (c.nx * c.ny)) % c.nz) + 1
-      t == ((q - 1) \div (c.nx * c.ny * c.nz)) + 1
-  IN Token(s, t, k, j, i)]
+\* the variables: the species of a uamiv file, or the fixed variables of a
+\* meteorological format
+VarsOf(c, names) == IF c.fmt = "uamiv" THEN [s \in 1..Len(names) |-> [name |-> names[s], s |-> s, surf |-> FALSE]]
+                    ELSE FmtVars(c)
+ExpDataV(c, v) ==
+  IF v.surf
+  THEN [q \in 1..(c.nt * c.ny * c.nx) |->
+          Token(v.s, ((q - 1) \div (c.nx * c.ny)) + 1, 0, (((q - 1) \div c.nx) % c.ny) + 1, ((q - 1) % c.nx) + 1)]
+  ELSE [q \in 1..(c.nt * c.nz * c.ny * c.nx) |->
+          LET i == ((q - 1) % c.nx) + 1
+              j == (((q - 1) \div c.nx) % c.ny) + 1
+              k == (((q - 1) \div (c.nx * c.ny)) % c.nz) + 1
+              t == ((q - 1) \div (c.nx * c.ny * c.nz)) + 1
+          IN Token(v.s, t, k, j, i)]
+PerStep(c, v) == IF v.surf THEN c.ny * c.nx ELSE c.nz * c.ny * c.nx
 \* instant of an IOAPI <YYYYJJJ, HHMMSS> flag
 FlagInst(fl) == NormInst(JulToDay(fl[1]), HmsToSec(fl[2]), 0)
 
 \* the sequential uamiv reader fails when the file's last step ends on another
 \* day than its first step begins (known finding)
 SpansMidnight(c) == EndOf(c, c.nt)[1] # BeginOf(c, 1)[1]
+\* ... and the sequential temperature reader when the two-digit dates wrap (99365 -> 00001)
+SpansCentury(c) == YYJJJ(BeginOf(c, c.nt)) < YYJJJ(BeginOf(c, 1))
 \* needflags: the reader defines TFLAG (the sequential readers do not)
 ContentDiag(c, names, got, nsteps, needflags) ==
+  LET vs == VarsOf(c, names) IN
   IF got.dims.TSTEP # nsteps THEN "number of time steps"
   ELSE IF got.dims.LAY # c.nz \/ got.dims.ROW # c.ny \/ got.dims.COL # c.nx THEN "grid dimensions"
   \* the sequential readers define no VAR dimension (logged as -1)
-  ELSE IF got.dims.VAR # -1 /\ got.dims.VAR # Len(c.spc) THEN "VAR dimension / species count"
-  ELSE IF got.names # names THEN "species names / order"
+  ELSE IF got.dims.VAR # -1 /\ got.dims.VAR # Len(vs) THEN "VAR dimension / variable count"
+  ELSE IF got.names # [q \in 1..Len(vs) |-> vs[q].name] THEN "variable names / order"
   ELSE IF ~got.dataok THEN "data are not the encoded values (not even integral)"
-  ELSE IF \E s \in 1..Len(c.spc) : got.data[s] # SubSeq(ExpData(c, s), 1, nsteps * c.nz * c.ny * c.nx)
-       THEN "float data of species " \o names[CHOOSE s \in 1..Len(c.spc) : got.data[s] # SubSeq(ExpData(c, s), 1, nsteps * c.nz * c.ny * c.nx)]
+  ELSE IF \E q \in 1..Len(vs) : got.data[q] # SubSeq(ExpDataV(c, vs[q]), 1, nsteps * PerStep(c, vs[q]))
+       THEN "float data of variable " \o vs[CHOOSE q \in 1..Len(vs) : got.data[q] # SubSeq(ExpDataV(c, vs[q]), 1, nsteps * PerStep(c, vs[q]))].name
   ELSE IF (needflags \/ Len(got.tflag) > 0) /\ Len(got.tflag) # nsteps THEN "number of begin time flags"
   ELSE IF \E t \in 1..Len(got.tflag) : FlagInst(got.tflag[t]) # BeginOf(c, t)
        THEN "begin time flag of step " \o ToString(CHOOSE t \in 1..Len(got.tflag) : FlagInst(got.tflag[t]) # BeginOf(c, t))
@@ -50,6 +62,11 @@ ContentDiag(c, names, got, nsteps, needflags) ==
 HeaderBytes(cc) == Offset(cc, NHeader(cc))
 BlockBytes(cc) == Offset(cc, NHeader(cc) + RecsPerStep(cc)) - HeaderBytes(cc)
 
+\* the meteorological formats have no header: a prefix made of whole records of
+\* the first time step looks like a complete single-step file with fewer layers
+MetRecBytes(c) == 4 * (2 + c.nx * c.ny) + 8
+HeaderlessFirstStep(c, n) == c.fmt \in MetFmts /\ n > 0 /\ n < BlockBytes(c) /\ n % MetRecBytes(c) = 0
+
 TStep ==
   LET tr == Traces[tid] c == tr.cfg IN
   /\ l = 0 /\ l' = 1 /\ tid' = tid
@@ -57,8 +74,11 @@ TStep ==
           /\ Chk(tr, 1, "reference encoder produced the size the layout states", tr.nbytes, tr.expbytes)
           \* C09 (direction B): every reader presents exactly the encoded content
           /\ (Prop = "C09" => \A r \in 1..Len(tr.reads) : LET rd == tr.reads[r] IN
-               IF rd.res # "ok" /\ rd.reader = "read" /\ SpansMidnight(c)
+               IF rd.res # "ok" /\ rd.reader = "read" /\
+                    ((c.fmt = "uamiv" /\ SpansMidnight(c)) \/ (c.fmt = "temperature" /\ SpansCentury(c)))
                THEN TrKnown(tr, "C09_K1_sequential_reader_midnight")
+               ELSE IF rd.res = "raised" /\ rd.reader = "read" /\ c.fmt \in MetFmts /\ c.nt = 1
+               THEN TrKnown(tr, "C09_K2_sequential_met_single_step")
                ELSE /\ ChkT(tr, r, "reader '" \o rd.reader \o "' rejected a valid file: " \o rd.exc, rd.res = "ok")
                     /\ ChkS(tr, r, "reader '" \o rd.reader \o "' does not present the encoded content",
                             ContentDiag(c, tr.names, rd.got, c.nt, rd.reader = "memmap")))
@@ -90,10 +110,13 @@ TStep ==
           \A p \in 1..Len(tr.obs) : LET o == tr.obs[p] IN
             /\ ChkT(tr, p, "reader did not terminate on the prefix of " \o ToString(o.n) \o " bytes", o.k # "Hang")
             /\ (o.k = "Steps" =>
+               IF HeaderlessFirstStep(c, o.n) /\ o.steps > CompleteSteps(c, o.n)
+               THEN TrKnown(tr, "C14_K1_headerless_first_step")
+               ELSE
                   /\ ChkT(tr, p, "prefix of " \o ToString(o.n) \o " bytes: more steps exposed than are complete",
                           o.steps >= 0 /\ o.steps <= CompleteSteps(c, o.n))
                   /\ ChkS(tr, p, "prefix of " \o ToString(o.n) \o " bytes: exposed steps differ from the full file",
-                          ContentDiag(c, tr.names, [dims |-> [TSTEP |-> o.steps, LAY |-> c.nz, ROW |-> c.ny, COL |-> c.nx, VAR |-> Len(c.spc)],
+                          ContentDiag(c, tr.names, [dims |-> [TSTEP |-> o.steps, LAY |-> c.nz, ROW |-> c.ny, COL |-> c.nx, VAR |-> -1],
                                                     names |-> tr.names, data |-> o.data, dataok |-> o.dataok,
                                                     tflag |-> o.tflag, etflag |-> <<>>], o.steps, TRUE)))
             \* the outcome is the one the transcribed decision procedure predicts
